@@ -664,6 +664,142 @@ def run_case(rec):
     return None, info
 
 
+# ---- quantifier "for all obs (= cm_hist) and cm_future series of any length and DISTRIBUTION ... parametric QuantileMapping":
+# every case above is a continuous, strictly positive (or Gaussian) series, and parametric QM ran with scipy norm / gamma / beta
+# only.  Real precipitation is ZERO-INFLATED (exact zeros next to positive amounts) and the library's own parametric QM for
+# it — the documented default `QuantileMapping.from_variable("pr")` and `for_precipitation(model_type="hurdle")`: P(X = 0) = p0,
+# a gamma for the amounts, NO censoring threshold — never ran, in no magnitude.  The precipitation cases feed such series
+# (10 - 70 % exact zeros, gamma amounts, a few distinct drizzle amounts far below the bulk, also in obs) in mm/day and as a
+# flux in kg m-2 s-1 (x 1/86400 and smaller: wet amounts below 1e-8 next to exact zeros), through the hurdle constructors with
+# and without cdf randomisation, multiplicative / no detrending, window-free and in running-window mode, via `apply_location`
+# and the public `apply`.  Demanded: out == cm_future at every step — exact zeros stay 0, every strictly positive amount comes
+# back unchanged up to rounding (there is no censoring threshold in these settings, so every value is inside the statement).
+# Guards (DESIGN 4, C03, nothing new): NoClip — steps whose cdf value is moved by `threshold_cdf_vals` are skipped; "up to
+# rounding" = 1e-9 * max|data| + ten times what the cdf / ppf round trip of ONE hurdle fit loses at that step.  Both are
+# computed with an INDEPENDENT reference of the documented hurdle model (scipy gamma with floc = 0, written out below), never
+# with the library's model: a tolerance derived from the code under test would absorb exactly the defect it should show.
+PRECIP_CONFIGS = ["QMpr-from_variable", "QMpr-hurdle-norand-no_detrending", "QMpr-hurdle-rand-no_detrending",
+                  "QMpr-hurdle-norand-multiplicative", "ECDFMpr-hurdle"]
+PRECIP_UNITS = [1.0 / 86400, 1.0, 1e-1 / 86400, 1e-2 / 86400]  # kg m-2 s-1, mm/day, and fluxes of drier / scaled records
+
+
+class _RefHurdle:
+    """the documented hurdle model, independent of ibicus: P(X = 0) = p0, P(0 < X <= x) = p0 + (1 - p0) * Gamma(x), loc = 0"""
+
+    @staticmethod
+    def fit(data):
+        import scipy.stats
+
+        wet = data[data != 0]
+        return (1 - wet.size / data.size, scipy.stats.gamma.fit(wet, floc=0))
+
+    @staticmethod
+    def cdf(x, p0, g):
+        import scipy.stats
+
+        return np.where(x == 0, p0, p0 + (1 - p0) * scipy.stats.gamma.cdf(x, *g))
+
+    @staticmethod
+    def ppf(q, p0, g):
+        import scipy.stats
+
+        return np.where(q > p0, scipy.stats.gamma.ppf((q - p0) / (1 - p0), *g), 0)
+
+
+def make_precip(name, mode):
+    from ibicus.debias import ECDFM, QuantileMapping
+
+    kw = window_kw(mode)
+    with warnings.catch_warnings():
+        warnings.simplefilter("ignore")
+        if name == "QMpr-from_variable":
+            return QuantileMapping.from_variable("pr", **kw)
+        if name == "ECDFMpr-hurdle":
+            return ECDFM.for_precipitation(model_type="hurdle", **kw)
+        if name.startswith("QMpr-hurdle-"):
+            _, _, rand, detr = name.split("-", 3)
+            return QuantileMapping.for_precipitation(model_type="hurdle", hurdle_model_randomization=(rand == "rand"), detrending=detr, **kw)
+    raise ValueError(name)
+
+
+def gen_precip_case(rng, name, tier, j=0):
+    """a recipe for a zero-inflated precipitation case (see the comment above); `build_precip(recipe)` is deterministic"""
+    windowed = rng.random() < 0.4
+    mode = None
+    if windowed:
+        S = rng.choice([15, 31, 61])
+        mode = [max(S, rng.choice([31, 61, 91])), S]
+    return dict(config=name, precip=True, mode=mode, ymode=None, nyO=rng.randint(3, 8), nyF=rng.randint(1, 6), y0=rng.randint(1950, 2000),
+                yF=rng.randint(2001, 2080), np_seed=rng.randint(0, 2**31 - 1), unit=PRECIP_UNITS[j % len(PRECIP_UNITS)],
+                dry=rng.choice([0.1, 0.4, 0.7]), shape=rng.choice([0.6, 0.9, 1.5]), sd_ratio=rng.choice([0.5, 1.0, 2.0]),
+                drizzle=rng.choice([3, 10, 25]), via=rng.choice(["apply_location", "apply"]), kinds=[probes.pick_kind(rng) for _ in range(3)])
+
+
+def build_precip(rec):
+    nprs = np.random.RandomState(rec["np_seed"])
+    dO, dF = whole_years(rec["y0"], rec["nyO"]), whole_years(rec["yF"], rec["nyF"])
+    u = float(rec["unit"])
+
+    def series(dates, scale_mm):
+        x = pr_series(nprs, dates, scale_mm, shape=float(rec["shape"]))
+        x = np.where(nprs.uniform(size=dates.size) < float(rec["dry"]), 0.0, x)
+        # distinct drizzle amounts: 1e-9 ... 9e-9 kg m-2 s-1 (about 1e-4 ... 8e-4 mm/day) in the record's unit
+        idx = nprs.choice(dates.size, size=min(int(rec["drizzle"]) * max(1, dates.size // 365), dates.size // 8), replace=False)
+        x[idx] = nprs.uniform(1e-9, 9e-9, idx.size) * 86400
+        return x * u
+
+    obs = series(dO, 6.0)
+    F = series(dF, 6.0 * float(rec["sd_ratio"]))
+    return dict(obs=obs, F=F, dO=dO, dF=dF)
+
+
+def run_precip_case(rec):
+    """returns (problem or None, info): hurdle-model debiasers on zero-inflated data, cm_hist == obs => out == cm_future"""
+    import types
+
+    data = build_precip(rec)
+    obs, F, dO, dF = data["obs"], data["F"], data["dO"], data["dF"]
+    name = rec["config"]
+    mode = tuple(rec["mode"]) if rec["mode"] else None
+    deb = make_precip(name, mode)
+    scale = float(max(np.max(np.abs(obs)), np.max(np.abs(F))))
+    info = {"n_obs": int(obs.size), "n_fut": int(F.size), "skipped_clipped": 0, "wet_below_1e-8": int(((F > 0) & (F < 1e-8)).sum()),
+            "dry_steps": int((F == 0).sum())}
+    kO, kH, kF = rec.get("kinds", ["date", "date", "date"])
+    times = [probes.present(dO, kO), probes.present(dO, kH), probes.present(dF, kF)]
+    with warnings.catch_warnings(), np.errstate(all="ignore"):
+        warnings.simplefilter("ignore")
+        np.random.seed(int(rec["np_seed"]) % 2**32)  # the cdf randomisation of dry days draws from the global generator
+        out = np.asarray(call_debiaser(deb, rec, obs, obs.copy(), F, times if mode else [None, None, None]))
+        tol = 1e-9 * scale
+        keep = np.ones(F.size, dtype=bool)
+        if name.startswith("QMpr-"):
+            ref = types.SimpleNamespace(distribution=_RefHurdle, detrending=deb.detrending, cdf_threshold=deb.cdf_threshold,
+                                        running_window_mode=deb.running_window_mode, running_window=getattr(deb, "running_window", None))
+            clip, rt = qm_guard(ref, obs, F, dO, dF)
+            keep = ~clip
+            tol = tol + 10.0 * np.where(np.isfinite(rt), rt, 0.0)
+            info["skipped_clipped"] = int(clip.sum())
+    if out.shape != F.shape:
+        return f"{name}: output shape {out.shape} != {F.shape}", info
+    err = np.abs(out - F)
+    err[~np.isfinite(out)] = np.inf
+    err = np.where(keep, err, 0.0)
+    excess = err - tol
+    worst = int(np.argmax(excess))
+    info["max_err"] = float(np.max(err))
+    if excess[worst] > 0:
+        tw = float(tol[worst]) if isinstance(tol, np.ndarray) else tol
+        bad = excess > 0
+        dried = int((bad & (F > 0) & (out == 0)).sum())
+        wetted = int((bad & (F == 0) & (out != 0)).sum())
+        return (f"{name} (zero-inflated precipitation, unit {rec['unit']:.3g} per mm/day, {info['dry_steps']} dry steps and {info['wet_below_1e-8']} wet "
+                f"amounts below 1e-8 in cm_future, windows {mode}, via {rec.get('via')}, time encodings {rec.get('kinds')}): with cm_hist == obs the "
+                f"output differs from cm_future by {err[worst]:.3g} at step {worst} ({out[worst]!r} vs {F[worst]!r}; tolerance {tw:.3g}); "
+                f"{int(bad.sum())} of {F.size} steps differ, {dried} wet steps came back as 0, {wetted} dry steps came back wet"), info
+    return None, info
+
+
 # pairs other than the default one: the statement is NOT claimed for them (Props.C03.cdft_fixed_point's comment);
 # the check records, as a supporting test, that the real code still behaves the way the comment says
 def other_pairs_note(rng, res):
@@ -920,6 +1056,31 @@ def run(tier, res, force_search=False):
                       sample={k2: rec[k2] for k2 in ("config", "mode", "ymode", "omit", "via", "nO", "nF")})
             if p:
                 problems.append((p, rec))
+    # ... and on zero-inflated precipitation (exact zeros next to positive amounts, mm/day and flux magnitudes) through the
+    # hurdle-model constructors of parametric QuantileMapping (the documented `pr` default): `gen_precip_case` (own PRNG stream)
+    t_pr = _time.time()
+    rng_pr = random.Random(C.seed() * 7919 + 107)
+    n_pr = (4 if tier == "quick" else 12) * (3 if (force_search or not lean_ok or mism) else 1)
+    n_precip = wet_tiny = 0
+    for r in range(n_pr):
+        for i, name in enumerate(PRECIP_CONFIGS):
+            rec = gen_precip_case(rng_pr, name, tier, r + i + C.seed())
+            try:
+                p, info = run_precip_case(rec)
+            except Exception as ex:  # noqa: BLE001  (an exception of the code under test is a violation carrying the recipe)
+                p, info = (f"{name} (zero-inflated precipitation, unit {rec['unit']:.3g}, windows {rec['mode']}, via {rec['via']}): "
+                           f"{type(ex).__name__}: {str(ex)[:200]}"), {}
+            skipped += info.get("skipped_clipped", 0)
+            compared += info.get("n_fut", 0)
+            n_precip += 1
+            wet_tiny += info.get("wet_below_1e-8", 0)
+            res.count(("precip", name, str(rec["mode"]), f"{rec['unit']:.3g}", rec["dry"], rec["via"]), True,
+                      sample={k2: rec[k2] for k2 in ("config", "mode", "unit", "dry", "shape", "via", "nyO", "nyF")})
+            if p:
+                problems.append((p, rec))
+    res.extra["oracle_precip"] = {"cases": n_precip, "wet_amounts_below_1e-8_compared": wet_tiny, "wall_s": round(_time.time() - t_pr, 2),
+                                  "what": "hurdle-model parametric QM / ECDFM on zero-inflated precipitation (exact zeros + gamma amounts + distinct "
+                                          "drizzle) in mm/day and kg m-2 s-1; tolerance from an independent reference of the hurdle model"}
     res.extra["oracle_timeless"] = {"cases": n_timeless, "wall_s": round(_time.time() - t_tl, 2),
                                     "what": "running-window / year-window mode with time arrays omitted (inferred dates), via apply_location and apply, "
                                             "400 - 1400 steps (not whole years), given axes starting on any day of the year"}
@@ -978,7 +1139,7 @@ def replay(data):
         print("replay utils ecdf/iecdf ->", probs[0][0] if probs else "property holds")
         return 1 if probs else 0
     try:
-        p, info = run_case(rec)
+        p, info = run_precip_case(rec) if rec.get("precip") else run_case(rec)
     except Exception as ex:  # noqa: BLE001  (the recorded problem of such an input IS the exception of the code under test)
         p, info = f"{type(ex).__name__}: {str(ex)[:200]}", {}
     print("replay", rec["config"], "->", p or "property holds on this input", info)
